@@ -105,3 +105,15 @@ chk("C08", "static analysis: one-step MIR decision tables over (offset,count) vi
     "Trusted: rustc MIR; arithmetic facts a-b<=a, (a-b==0 <=> a==b), a%b<b. The div/mod split points are matched against an "
     "idiom list (an equivalent rewrite in a new idiom is reported as unrecognised). Histories follow by the simulation "
     "argument over one-step tables (DESIGN.md App. E).")
+chk("C19", "static analysis: MIR decision tables of macro expansions in a witness crate (opaque marker closures), accept programs, macro token lint",
+    "Every option::/result:: macro in both argument forms (closure, function path), option::copied, try_!, try_!(map_err), "
+    "try_opt!, unwrap_ctx! is expanded in a witness crate whose closures are opaque marker functions; for each variant of the "
+    "input the returned term and the exact list of marker calls made on that path are compared with the std method "
+    "(so an eager/lazy slip or a wrong payload is a mismatch for all values). min!/max!/_by/_by_key are decided as operand "
+    "tables over Less/Equal/Greater (ties: first for min, second for max). try_rebind!/rebind_if_ok! must be accepted by "
+    "rustc for arities 1..6 with place / let / typed-let / `_` positions and each position must receive component i of the Ok "
+    "payload (argument provenance of a sink call), Err must propagate / skip. A token lint over the macro definitions "
+    "rejects fragment specifiers inside transcribers (this found the arity>=3 defect).",
+    "Trusted: rustc's macro expansion and MIR for the witness crate; marker functions are opaque (`#[inline(never)] loop{}`), "
+    "so results hold for every closure. The accept family is sampled per arity in the quick tier (uniform + mixed kinds).",
+    cat="other")
